@@ -356,6 +356,7 @@ func checkC02(c *Ctx) {
 	c.checkStackmarkIdentity("C02-MARK")
 	c.checkMapOrder("C02-MAP")
 	c.checkGeneratorCtors("ES-CTOR")
+	c.checkAppendSharing("C02-SHARE")
 	// ---- C02-ORD
 	if f := c.mustFn("C02-ORD", "CallExprInstr.Execute"); f != nil {
 		ev := c.fn("Zlisp.EvalCallExpression")
@@ -784,4 +785,109 @@ func orPos(p, q token.Pos) token.Pos {
 		return p
 	}
 	return q
+}
+
+// checkAppendSharing: C02-SHARE. Go's append writes into the spare capacity of
+// its first operand. When that operand is the storage of one script array and
+// the result becomes the storage of another, the two arrays share one backing
+// array: (def a (append [1 2] 3)) (def b (append a 4)) (def c (append a 5))
+// leaves b == c. The value of a variable must not change when nothing assigns
+// to it. Growing an array in place (x.Val = append(x.Val, ...)) is not
+// sharing; neither is appending to storage made in the same function or cut
+// with a full slice expression s[:n:n].
+func (c *Ctx) checkAppendSharing(rule string) {
+	val := c.mustField(rule, "SexpArray", "Val")
+	if val == nil {
+		return
+	}
+	// owner of a storage value: the array object whose Val it was loaded from
+	var ownerOf func(v ssa.Value, depth int) (ssa.Value, bool)
+	ownerOf = func(v ssa.Value, depth int) (ssa.Value, bool) {
+		if depth > 6 {
+			return nil, false
+		}
+		if base, ok := loadOfField(v, val); ok {
+			// a local array whose storage was copied from another array's field
+			if al, isAlloc := base.(*ssa.Alloc); isAlloc {
+				for _, r := range *al.Referrers() {
+					fa, ok := r.(*ssa.FieldAddr)
+					if !ok || faField(fa) != val {
+						continue
+					}
+					for _, r2 := range *fa.Referrers() {
+						if st, ok := r2.(*ssa.Store); ok && st.Addr == ssa.Value(fa) {
+							if o, ok := ownerOf(st.Val, depth+1); ok && o != base {
+								return o, true
+							}
+						}
+					}
+				}
+			}
+			return base, true
+		}
+		switch x := v.(type) {
+		case *ssa.Slice:
+			if x.Max != nil {
+				return nil, false // full slice expression: append must reallocate
+			}
+			return ownerOf(x.X, depth+1)
+		case *ssa.Phi:
+			for _, e := range x.Edges {
+				if o, ok := ownerOf(e, depth+1); ok {
+					return o, true
+				}
+			}
+		}
+		return nil, false
+	}
+	n := 0
+	for _, f := range c.zygoFuncs() {
+		eachInstr(f, func(b *ssa.BasicBlock, i int, in ssa.Instruction) {
+			call, ok := in.(*ssa.Call)
+			if !ok {
+				return
+			}
+			bi, ok := call.Call.Value.(*ssa.Builtin)
+			if !ok || bi.Name() != "append" || len(call.Call.Args) < 2 {
+				return
+			}
+			owner, ok := ownerOf(call.Call.Args[0], 0)
+			if !ok {
+				return
+			}
+			n++
+			// where the result goes: the Val field of which object
+			for _, r := range *call.Referrers() {
+				st, ok := r.(*ssa.Store)
+				if !ok || st.Val != ssa.Value(call) {
+					continue
+				}
+				fa, ok := st.Addr.(*ssa.FieldAddr)
+				if !ok || faField(fa) != val {
+					continue
+				}
+				target := fa.X
+				same := target == owner
+				if !same {
+					// the same object reached through two loads of one variable
+					if l1, ok := target.(*ssa.UnOp); ok {
+						if l2, ok := owner.(*ssa.UnOp); ok && l1.X == l2.X {
+							same = true
+						}
+					}
+				}
+				if same {
+					// grown in place; but not if the object's storage was itself taken from another array
+					if o2, ok := ownerOf(call.Call.Args[0], 0); ok && o2 == target {
+						c.ok(rule, fnName(f), "append grows an array in place", call.Pos(), "the result of append is stored back into the array whose storage was appended to")
+						continue
+					}
+				}
+				c.bad(rule, fnName(f), "append to one array's storage becomes another array's storage", call.Pos(),
+					"append writes into the spare capacity of the first array's storage and the result is kept as the storage of a second array: two arrays made from the same prefix share the appended slots, so (def b (append a 4)) (def c (append a 5)) leaves b equal to c; a variable changes although nothing assigned to it")
+			}
+		})
+	}
+	c.check(n >= 3, rule, "package", "appends to array storage examined", token.NoPos,
+		fmt.Sprintf("%d append calls on the storage of a script array examined", n), fmt.Sprintf("only %d append calls on script array storage found", n))
 }
